@@ -64,38 +64,44 @@ let parse_structure ws =
 
 let parse_op s =
   match words s with
-  | ["S"] -> OSetModel
-  | ["E"; slot; id] -> OEdit (nat slot, stok id)
-  | ["A"] -> OAssignAll
-  | ["T"; k] -> OAssignType (kind_of_name k)
-  | "I" :: k :: slot :: a :: b :: _ -> OAssignItem { v_kind = kind_of_name k; v_slot = nat slot; v_a = nat a; v_b = nat b }
-  | ["C"] -> OClearAll
-  | ["i"; id] -> OItem (stok id)
-  | ["x"; id; i] -> OItemIndex (stok id, nat i)
-  | ["l"; id] -> OItems (stok id)
-  | ["u"; id] -> OIsUnique (stok id)
-  | ["n"; id] -> OItemCount (stok id)
-  | ["d"] -> OIds
-  | ["D"] -> ODuplicateIds
-  | "t" :: a :: id :: _ -> OTyped (acc_of_name a, stok id)
-  | ["P"] -> OPrint
+  | ["S"] -> MSetModel O
+  | ["S"; k] -> MSetModel (nat k)
+  | ["E"; slot; id] -> MEdit (O, nat slot, stok id)
+  | ["E"; slot; id; k] -> MEdit (nat k, nat slot, stok id)
+  | ["X"] -> MDrop
+  | ["A"] -> MOp OAssignAll
+  | ["T"; k] -> MOp (OAssignType (kind_of_name k))
+  | "I" :: k :: slot :: a :: b :: _ -> MOp (OAssignItem { v_kind = kind_of_name k; v_slot = nat slot; v_a = nat a; v_b = nat b })
+  | ["C"] -> MOp OClearAll
+  | ["i"; id] -> MOp (OItem (stok id))
+  | ["x"; id; i] -> MOp (OItemIndex (stok id, nat i))
+  | ["l"; id] -> MOp (OItems (stok id))
+  | ["u"; id] -> MOp (OIsUnique (stok id))
+  | ["n"; id] -> MOp (OItemCount (stok id))
+  | ["d"] -> MOp OIds
+  | ["D"] -> MOp ODuplicateIds
+  | "t" :: a :: id :: _ -> MOp (OTyped (acc_of_name a, stok id))
+  | ["P"] -> MOp OPrint
   | _ -> failwith ("bad op " ^ s)
 
-let entry_str e = Printf.sprintf "%s:%d:%d:%d" (kind_name e.e_kind) (int_of_nat e.e_slot) (int_of_nat e.e_a) (int_of_nat e.e_b)
-let result_str = function
+let entry_str owner e = Printf.sprintf "%d.%s:%d:%d:%d" owner (kind_name e.e_kind) (int_of_nat e.e_slot) (int_of_nat e.e_a) (int_of_nat e.e_b)
+let result_str owner = function
   | RNone -> "-"
   | RBool b -> if b then "b1" else "b0"
   | RStr s -> tok s
   | RNat n -> string_of_int (int_of_nat n)
   | REntry None -> "undef"
-  | REntry (Some e) -> entry_str e
-  | REntries l -> "[" ^ String.concat "," (List.map entry_str l) ^ "]"
+  | REntry (Some e) -> entry_str owner e
+  | REntries l -> "[" ^ String.concat "," (List.map (entry_str owner) l) ^ "]"
   | RStrs l -> "[" ^ String.concat "," (List.map tok l) ^ "]"
   | RPrint (l, ok) -> "p" ^ String.concat "," (List.sort compare (List.map tok l)) ^ (if ok then "" else "!fuel")
 
 let snap ids = String.concat "," (List.map tok ids)
-let changes_ids = function OAssignAll | OAssignType _ | OAssignItem _ | OClearAll -> true | _ -> false
+let changes_ids = function MOp OAssignAll | MOp (OAssignType _) | MOp (OAssignItem _) | MOp OClearAll -> true | _ -> false
 
+(* case line:  <script> | <tables, one per model, '/'-separated> | <structures, '/'-separated> | <ops>
+   ops: S [k] (setModel of model k), E <slot> <id> [k] (edit on model k), X (the stored model is destroyed), the rest
+   act on the stored model.  Items are printed as <owner model>.<kind>:<slot>:<a>:<b>. *)
 let () =
   let ic = open_in Sys.argv.(1) in
   let c = if Array.length Sys.argv > 2 && Sys.argv.(2) = "pinned" then cfg_pinned else cfg_fixed in
@@ -104,20 +110,27 @@ let () =
        let line = input_line ic in
        (try
           let secs = String.split_on_char '|' line in
-          let (n, st) = parse_structure (words (List.nth secs 2)) in
+          let parsed = List.map (fun t -> parse_structure (words t)) (String.split_on_char '/' (List.nth secs 2)) in
+          let sts = List.map snd parsed in
           let ops = List.map parse_op (List.filter (fun x -> String.trim x <> "") (String.split_on_char ';' (List.nth secs 3))) in
-          let ids0 = List.init n (fun _ -> []) in
-          (* step by step so that a snapshot can be printed after every id-changing operation *)
+          let idss0 = List.map (fun (n, _) -> List.init n (fun _ -> [])) parsed in
           let out = Buffer.create 256 in
-          let s = ref (init ids0) in
+          let ms = ref (minit idss0) in
+          let dead = Hashtbl.create 4 in
+          let cur_snap m =
+            let k = int_of_nat m.m_ann.a_model in
+            if Hashtbl.mem dead k then "-" else snap (List.nth m.m_ids k) in
           List.iteri (fun i o ->
-              let (s1, rs) = run c st !s [o] in
-              s := s1;
+              (match o with MDrop -> Hashtbl.replace dead (int_of_nat !ms.m_ann.a_model) true | _ -> ());
+              let (m1, rs) = mrun c sts !ms [o] in
+              ms := m1;
               if i > 0 then Buffer.add_char out ';';
-              Buffer.add_string out (result_str (List.hd rs));
-              if changes_ids o then (Buffer.add_char out '@'; Buffer.add_string out (snap s1.s_ids))) ops;
-          Printf.printf "%s # final=%s wf=%s err=%s\n" (Buffer.contents out) (snap !s.s_ids)
-            (if wf c st (nat_of_int n) then "1" else "0") (if !s.s_ann.a_err then "1" else "0")
+              Buffer.add_string out (result_str (int_of_nat m1.m_ann.a_owner) (List.hd rs));
+              if changes_ids o then (Buffer.add_char out '@'; Buffer.add_string out (cur_snap m1))) ops;
+          let finals = String.concat "/" (List.mapi (fun k ids -> if Hashtbl.mem dead k then "-" else snap ids) !ms.m_ids) in
+          let wfs = List.for_all (fun (n, st) -> wf c st (nat_of_int n)) parsed in
+          Printf.printf "%s # final=%s wf=%s err=%s\n" (Buffer.contents out) finals
+            (if wfs then "1" else "0") (if !ms.m_ann.a_err then "1" else "0")
         with e -> Printf.printf "MODEL-ERROR(%s)\n" (Printexc.to_string e))
      done
    with End_of_file -> ());
